@@ -246,8 +246,8 @@ impl Property for ExplProp {
     }
     fn cases(&self, tier: Tier) -> u64 {
         match tier {
-            Tier::Quick => 400_000,
-            Tier::Thorough => 6_000_000,
+            Tier::Quick => 1_200_000,
+            Tier::Thorough => 12_000_000,
         }
     }
     fn floors(&self, _tier: Tier) -> Vec<(&'static str, f64)> {
